@@ -268,6 +268,19 @@ def stepLine (_ : Unit) (toks : List String) : Unit × String :=
       let d := varint_decode mem off t.max
       decStr t d (fun c => s!" off={off + c}") s!" off={off}"
     | _, _, _ => "bad-op"
+  | ["vi.decseq", ty, hex, off, _used] =>
+    -- up to four decodes from one buffer, each starting where the one before stopped
+    match Ty.ofString ty, parseHex hex, off.toNat? with
+    | some t, some mem, some off =>
+      let rec go (k : Nat) (off : Nat) (acc : List String) : List String :=
+        match k with
+        | 0 => acc
+        | k + 1 =>
+          match varint_decode mem off t.max with
+          | .ok v c => go k (off + c) (acc ++ [decStr t (.ok v c) (fun c => s!" off={off + c}") ""])
+          | d => acc ++ [decStr t d (fun _ => "") s!" off={off}"]
+      " ".intercalate (go 4 off [])
+    | _, _, _ => "bad-op"
   | ["vi.decsrc", ty, hex] =>
     match Ty.ofString ty, parseHex hex with
     | some t, some inp => decStr t (varint_from_source .enodata inp t.max) (fun c => s!" taken={c}") ""
